@@ -48,17 +48,30 @@ func nsPrefix(ns string) string {
 }
 
 // admission runs one chain for one namespace and judges it.
-func admission(chain string, ns string, r *vx.Report) {
+// variant: "" (defaults), or a server with connection state recovery enabled (middlewares are skipped for a
+// RECOVERED session only, by default) whose client presents no pid / a pid the server cannot restore: such a
+// client is an ordinary new client and must pass the whole chain.
+func admission(chain string, ns string, r *vx.Report, variant ...string) {
+	vr := ""
+	if len(variant) > 0 {
+		vr = variant[0]
+	}
 	var fail []string
 	failKey := ""
 	violate := func(key, format string, a ...any) {
 		if failKey == "" {
 			failKey = key
 		}
-		fail = append(fail, fmt.Sprintf(format, a...))
+		m := fmt.Sprintf(format, a...)
+		if vr != "" {
+			m = "[" + vr + "] " + m
+		}
+		fail = append(fail, m)
 	}
 	e := vsched.Run(vsched.Options{Horizon: 30 * time.Second}, func(e *vsched.Exec) {
-		srv := sio.NewServer(nil)
+		scfg := &sio.ServerConfig{}
+		scfg.ServerConnectionStateRecovery.Enabled = vr != ""
+		srv := sio.NewServer(scfg)
 		nsp := srv.Of(ns)
 		var calls []int
 		connHandlers := 0
@@ -88,7 +101,14 @@ func admission(chain string, ns string, r *vx.Report) {
 		}
 		nsp.OnConnection(func(s sio.ServerSocket) { connHandlers++; sockID = string(s.ID()) })
 		f := vrig.NewFakeEIO(srv, "c12")
-		f.In("0" + nsPrefix(ns))
+		switch vr {
+		case "recovery-on/unknown-pid":
+			f.In("0" + nsPrefix(ns) + `{"pid":"never-issued","offset":"none"}`)
+		case "recovery-on/pid-without-offset":
+			f.In("0" + nsPrefix(ns) + `{"pid":"never-issued"}`)
+		default:
+			f.In("0" + nsPrefix(ns))
+		}
 		vrig.Settle(time.Second)
 
 		first := -1
@@ -699,7 +719,7 @@ func main() {
 	vx.Main(vx.Config{
 		Property: "C12",
 		Level:    "model_checking",
-		Rule: "admission: every chain of <= 3 middlewares over {accept, join+accept, reject(error), reject(string), reject(struct), join+reject} plus chains of 4-5 with one rejection at each position, on '/' and '/custom', each run on the real server under the scheduler (default schedule, virtual time) and judged against the statement; " +
+		Rule: "admission: every chain of <= 3 middlewares over {accept, join+accept, reject(error), reject(string), reject(struct), join+reject} plus chains of 4-5 with one rejection at each position, on '/' and '/custom' (chains <= 3 also on a server with connection state recovery whose client presents no pid, an unknown pid, a pid without offset), each run on the real server under the scheduler (default schedule, virtual time) and judged against the statement; " +
 			"concurrent connects of 2-3 clients with a blocking middleware explored to the deviation bound; the connection ending (transport close / connect timeout) while an early middleware still runs and a later one rejects or accepts; event middleware: chains of <= 2 x 6 handler signatures, and chains of <= 2 over {accept, reject, reject-iff-first-argument-is-bad} x 7 sets of 1-3 On/Once handlers on the same event x 7 sequences of 1-3 accepted/rejected occurrences (also of an unrelated event). distinct_nontrivial = chains containing >= 1 middleware (admission) + event cases with a non-empty chain + deviating schedules",
 		Scenarios: scenarios,
 		Budget: func(tier string) time.Duration {
@@ -713,6 +733,12 @@ func main() {
 			for _, ns := range []string{"/", "/custom"} {
 				for _, c := range cs {
 					admission(c, ns, r)
+					if len(c) > 0 && len(c) <= 3 {
+						for _, vr := range []string{"recovery-on/no-pid", "recovery-on/unknown-pid", "recovery-on/pid-without-offset"} {
+							admission(c, ns, r, vr)
+							r.DistinctNontriv++
+						}
+					}
 					if len(c) > 0 {
 						r.DistinctNontriv++
 					}
